@@ -98,6 +98,21 @@ namespace cnl {
         return lhs.numerator * rhs.denominator != rhs.numerator * lhs.denominator;
     }
 
+    namespace _impl {
+        // true iff lhs < rhs; cross-multiplying by exactly one negative denominator reverses the order
+        template<
+                typename LhsNumerator, typename LhsDenominator, typename RhsNumerator,
+                typename RhsDenominator>
+        [[nodiscard]] constexpr auto fraction_less(
+                fraction<LhsNumerator, LhsDenominator> const& lhs,
+                fraction<RhsNumerator, RhsDenominator> const& rhs)
+        {
+            return ((lhs.denominator < 0) != (rhs.denominator < 0))
+                         ? rhs.numerator * lhs.denominator < lhs.numerator * rhs.denominator
+                         : lhs.numerator * rhs.denominator < rhs.numerator * lhs.denominator;
+        }
+    }
+
     template<
             typename LhsNumerator, typename LhsDenominator, typename RhsNumerator,
             typename RhsDenominator>
@@ -105,7 +120,7 @@ namespace cnl {
             fraction<LhsNumerator, LhsDenominator> const& lhs,
             fraction<RhsNumerator, RhsDenominator> const& rhs)
     {
-        return lhs.numerator * rhs.denominator < rhs.numerator * lhs.denominator;
+        return _impl::fraction_less(lhs, rhs);
     }
 
     template<
@@ -115,7 +130,7 @@ namespace cnl {
             fraction<LhsNumerator, LhsDenominator> const& lhs,
             fraction<RhsNumerator, RhsDenominator> const& rhs)
     {
-        return lhs.numerator * rhs.denominator > rhs.numerator * lhs.denominator;
+        return _impl::fraction_less(rhs, lhs);
     }
 
     template<
@@ -125,7 +140,7 @@ namespace cnl {
             fraction<LhsNumerator, LhsDenominator> const& lhs,
             fraction<RhsNumerator, RhsDenominator> const& rhs)
     {
-        return lhs.numerator * rhs.denominator <= rhs.numerator * lhs.denominator;
+        return !_impl::fraction_less(rhs, lhs);
     }
 
     template<
@@ -135,7 +150,7 @@ namespace cnl {
             fraction<LhsNumerator, LhsDenominator> const& lhs,
             fraction<RhsNumerator, RhsDenominator> const& rhs)
     {
-        return lhs.numerator * rhs.denominator >= rhs.numerator * lhs.denominator;
+        return !_impl::fraction_less(lhs, rhs);
     }
 
 #if defined(CNL_IOSTREAMS_ENABLED)
